@@ -299,6 +299,51 @@ def run(ctx: Ctx, rs: RuleSet, tier: str):
       vk, VK = c, name
   ok = False
   detail = 'the two keyword comprehensions were not found'
+  part_loop = None
+  if fk is None or vk is None:
+    # one loop that puts each keyword into exactly one of two dicts:
+    #   for k, a in kwargs.items():
+    #     if P(a): F[k] = a.factory
+    #     else:    V[k] = a
+    for n in walk_function(bp.node):
+      if not (isinstance(n, ast.For) and unparse(
+          n.iter) == f'{kwargs_p}.items()' and isinstance(
+              n.target, ast.Tuple) and len(n.target.elts) == 2 and len(
+                  n.body) == 1 and isinstance(n.body[0], ast.If) and len(
+                      n.body[0].body) == 1 and len(n.body[0].orelse) == 1):
+        continue
+      kv, av = [unparse(t_) for t_ in n.target.elts]
+      pr = predicate(n.body[0].test)
+      a_, b_ = n.body[0].body[0], n.body[0].orelse[0]
+      if pr is None or pr[1] != av:
+        continue
+      if pr[0] is False:
+        a_, b_ = b_, a_
+
+      def store(st_):
+        if isinstance(st_, ast.Assign) and len(st_.targets) == 1 and isinstance(
+            st_.targets[0], ast.Subscript) and isinstance(
+                st_.targets[0].value, ast.Name) and unparse(
+                    st_.targets[0].slice) == kv:
+          return st_.targets[0].value.id, unparse(st_.value)
+        return None
+
+      sa, sb = store(a_), store(b_)
+      if sa and sb and sa[0] != sb[0]:
+        part_loop = (n, sa, sb, av)
+  if part_loop is not None:
+    n_, sa, sb, av = part_loop
+    FK, VK = sa[0], sb[0]
+    ok = True
+    detail = (f'one loop over {kwargs_p}.items() stores each keyword in '
+              f'exactly one of `{FK}` (factory) / `{VK}` (value) by the '
+              'factory predicate')
+    rs.check(ok, rule, f'{bp.qualname}:complementary', detail,
+             ctx.loc(bp, bp.node))
+    rs.check(sa[1] == f'{av}.factory' and sb[1] == av, rule,
+             f'{bp.qualname}:layer-values',
+             'factory layer binds arg.factory, value layer binds the value',
+             ctx.loc(bp, bp.node))
   if fk is not None and vk is not None:
     pf = predicate(fk.generators[0].ifs[0]) if fk.generators[0].ifs else None
     pv = predicate(vk.generators[0].ifs[0]) if vk.generators[0].ifs else None
@@ -313,15 +358,25 @@ def run(ctx: Ctx, rs: RuleSet, tier: str):
               (' and '.join(unparse(c) for c in vk.generators[0].ifs) or
                '<no filter: factory keywords are bound in both layers>') +
               f'; same source {same_src}')
-  rs.check(ok, rule, f'{bp.qualname}:complementary', detail,
-           ctx.loc(bp, bp.node))
-  # values: unwrapped factory vs. the value itself
-  ok = (fk is not None and unparse(fk.value) == unparse(
-      fk.generators[0].target.elts[1]) + '.factory' and vk is not None and
-        unparse(vk.value) == unparse(vk.generators[0].target.elts[1]))
-  rs.check(ok, rule, f'{bp.qualname}:layer-values',
-           'factory layer binds arg.factory, value layer binds the value',
-           ctx.loc(bp, bp.node))
+  if part_loop is None:
+    rs.check(ok, rule, f'{bp.qualname}:complementary', detail,
+             ctx.loc(bp, bp.node))
+    # values: unwrapped factory vs. the value itself
+    ok = (fk is not None and unparse(fk.value) == unparse(
+        fk.generators[0].target.elts[1]) + '.factory' and vk is not None and
+          unparse(vk.value) == unparse(vk.generators[0].target.elts[1]))
+    rs.check(ok, rule, f'{bp.qualname}:layer-values',
+             'factory layer binds arg.factory, value layer binds the value',
+             ctx.loc(bp, bp.node))
+  # the two layers may be handed on under other names (fk2 = fk)
+  def aliases(nm):
+    out = {nm} if nm else set()
+    for _ in range(3):
+      out |= roles.assigned_from(bp, lambda e: isinstance(
+          e, ast.Name) and e.id in out)
+    return out
+
+  FKS, VKS = aliases(FK), aliases(VK)
   # the kwargs were promoted first (containers holding factories)
   promo = [n for n in g.nodes() if isinstance(g.stmt[n], ast.Assign) and
            unparse(g.stmt[n].targets[0]) == kwargs_p and
@@ -331,6 +386,8 @@ def run(ctx: Ctx, rs: RuleSet, tier: str):
              '_promote_arg_factory' in unparse(g.stmt[n].value)]
   comp_nodes = [n for n in g.nodes() if isinstance(g.stmt[n], ast.Assign) and
                 g.stmt[n].value in (fk, vk)]
+  if part_loop is not None:
+    comp_nodes = [n for n in g.nodes() if g.stmt[n] is part_loop[0]]
   ok = bool(promo) and bool(promo_a) and all(
       g.dominated_by(c, set(promo), labels=cfg_lib.NO_EXC)
       for c in comp_nodes)
@@ -348,7 +405,7 @@ def run(ctx: Ctx, rs: RuleSet, tier: str):
     R = rets[0].value.args[0].id
     kws = rets[0].value.keywords
     ok = (len(kws) == 1 and kws[0].arg is None and VK is not None and
-          unparse(kws[0].value) == VK)
+          unparse(kws[0].value) in VKS)
   rs.check(ok, rule, f'{bp.qualname}:outermost',
            f'returns {unparse(rets[0].value) if rets else None}: call-time '
            'keywords override the configured value keywords',
@@ -358,7 +415,8 @@ def run(ctx: Ctx, rs: RuleSet, tier: str):
             if isinstance(n, ast.For) for s in walk_stmts(n.body)
             if isinstance(s, ast.Assign) and isinstance(s.value, ast.Dict)
             and not s.value.keys}
-  rs.check(FK is not None and resets == {FK, VK}, rule,
+  rs.check(FK is not None and len(resets) == 2 and resets <= (FKS | VKS) and
+           bool(resets & FKS) and bool(resets & VKS), rule,
            f'{bp.qualname}:consumed-once',
            f'keyword dicts reset after use in the positional loop: '
            f'{sorted(resets)}', ctx.loc(bp, bp.node))
@@ -372,6 +430,7 @@ def run(ctx: Ctx, rs: RuleSet, tier: str):
             and len(c.keywords) == 1 and c.keywords[0].arg is None and
             unparse(c.keywords[0].value) == dstar)
 
+  from fdlstatic import dispatch as _dispatch
   for n in walk_function(bp.node):
     if isinstance(n, ast.For) and isinstance(n.iter, ast.Call) and unparse(
         n.iter.func) == 'itertools.groupby' and len(
@@ -379,17 +438,55 @@ def run(ctx: Ctx, rs: RuleSet, tier: str):
                 n.iter.args[0]) == args_p and predicate_ref(
                     n.iter.args[1]) and (
             isinstance(n.target, ast.Tuple) and len(n.target.elts) == 2):
-      V = unparse(n.target.elts[1])
-      calls = [c for c in ast.walk(n) if isinstance(c, ast.Call)]
-      fac = any(_is_partial_call(c, 'arg_factory.partial', V, FK)
-                for c in calls)
-      val = any(_is_partial_call(c, 'functools.partial', V, VK) for c in calls)
-      unwrap = any(
-          isinstance(c, ast.ListComp) and isinstance(c.elt, ast.Attribute) and
-          c.elt.attr == 'factory' and unparse(c.elt.value) == unparse(
-              c.generators[0].target) and unparse(c.generators[0].iter) == V
-          for c in ast.walk(n))
-      ok = fac and val and unwrap
+      G, V = [unparse(t_) for t_ in n.target.elts]
+      heads = [m for m in g.nodes() if g.stmt[m] is n]
+      if not heads:
+        continue
+      body_start = [x for x, lab in g.succ[heads[0]] if lab == 'iter']
+
+      def group_is_factory(v):
+        def ev(t):
+          if isinstance(t, ast.Name) and t.id == G:
+            return v
+          return None
+        return _dispatch.through_locals(bp, ev)
+
+      r_fac = _dispatch.reach_atoms(g, group_is_factory(True),
+                                    start=body_start, stop={heads[0]})
+      r_val = _dispatch.reach_atoms(g, group_is_factory(False),
+                                    start=body_start, stop={heads[0]})
+
+      def sites(fn_text, dstar):
+        out = []
+        for m in g.nodes():
+          for c in cfg_lib.walk_node(g, m):
+            if (isinstance(c, ast.Call) and unparse(c.func) == fn_text and
+                len(c.args) == 2 and unparse(c.args[0]) == R and isinstance(
+                    c.args[1], ast.Starred) and len(c.keywords) == 1 and
+                c.keywords[0].arg is None and
+                unparse(c.keywords[0].value) in dstar and m in g.reach(
+                    body_start, blocked={heads[0]}, labels=cfg_lib.NO_EXC)):
+              out.append((m, c.args[1].value))
+        return out
+
+      def unwrapped(e, m):
+        e, _ = roles.value_at(g, m, e)
+        return isinstance(e, ast.ListComp) and isinstance(
+            e.elt, ast.Attribute) and e.elt.attr == 'factory' and unparse(
+                e.elt.value) == unparse(e.generators[0].target) and unparse(
+                    e.generators[0].iter) == V and not e.generators[0].ifs
+
+      def raw(e, m):
+        e, _ = roles.value_at(g, m, e)
+        return unparse(e) in (V, f'list({V})', f'tuple({V})')
+
+      fac_sites = sites('arg_factory.partial', FKS)
+      val_sites = sites('functools.partial', VKS)
+      ok = (bool(fac_sites) and bool(val_sites) and
+            all(m in r_fac and m not in r_val and unwrapped(e, m)
+                for m, e in fac_sites) and
+            all(m in r_val and m not in r_fac and raw(e, m)
+                for m, e in val_sites))
   rs.check(ok, rule, f'{bp.qualname}:positional-groups',
            'positional arguments are grouped by the same predicate; factory '
            'groups are bound unwrapped through arg_factory.partial',
@@ -583,9 +680,11 @@ def run(ctx: Ctx, rs: RuleSet, tier: str):
       ok = ma is not None and mk is not None and ma[2] == 'elements' and (
           mk[2] == 'items')
       if ok:
-        # keyword source: the **kwargs parameter itself
-        ok = isinstance(mk[0], ast.Name) and mk[0].id == a.kwarg.arg and all(
-            r_[1] == 'param' for r_ in roles.reaching(gp, mk[1], a.kwarg.arg))
+        # keyword source: the **kwargs parameter itself (possibly handed on
+        # under another name)
+        ks, kat = roles.value_at(gp, mk[1], mk[0])
+        ok = isinstance(ks, ast.Name) and ks.id == a.kwarg.arg and all(
+            r_[1] == 'param' for r_ in roles.reaching(gp, kat, a.kwarg.arg))
       if ok:
         # positional source: everything after the function in *args
         # (`func, *rest = args`), the function being what the wrapper gets
@@ -593,10 +692,12 @@ def run(ctx: Ctx, rs: RuleSet, tier: str):
             ma[0], ast.Name) else []
         fd = roles.reaching(gp, rets[0], unparse(rv_.args[0].args[0]))
         ok = (len(rd) == 1 and rd[0][1] == 'rest' and len(fd) == 1 and
-              fd[0][1] == 'elt' and fd[0][0] == rd[0][0] and
-              unparse(rd[0][2]) == a.vararg.arg and all(
-                  r_[1] == 'param' for r_ in roles.reaching(
-                      gp, rd[0][0], a.vararg.arg)))
+              fd[0][1] == 'elt' and fd[0][0] == rd[0][0])
+        if ok:
+          vs, vat = roles.value_at(gp, rd[0][0], rd[0][2])
+          ok = unparse(vs) == a.vararg.arg and all(
+              r_[1] == 'param' for r_ in roles.reaching(
+                  gp, vat, a.vararg.arg))
         if ok:
           st_ = gp.stmt[rd[0][0]]
           tg_ = st_.targets[0] if isinstance(st_, ast.Assign) else None
